@@ -34,7 +34,7 @@ func TestC20Reg_LivenessFallbackReexecutesRootBatch(t *testing.T) {
 		if deliver && no.CertTx != nil {
 			txs = append(txs, no.CertTx)
 		}
-		out, err := tc.Root.Block(chainsim.BlockSpec{Txs: txs})
+		out, err := tc.RootBlock(chainsim.BlockSpec{Txs: txs})
 		if err != nil || out.Err != nil {
 			t.Fatalf("root block: %v %v", err, out.Err)
 		}
@@ -64,5 +64,110 @@ func TestC20Reg_LivenessFallbackReexecutesRootBatch(t *testing.T) {
 	if got := nBal() - start; got != paidOnce {
 		t.Fatalf("the buyer of ONE root order (10000 root tokens, paid once by the seller) received %d nested tokens at execution and %d in total after the liveness fallback; nested liquidity pool %d -> %d",
 			paidOnce, got, poolAfterFirst, nPool())
+	}
+}
+
+// TestC20Reg_LivenessFallbackRefundsWhatRootExecutes reproduces finding KF-C20-liveness-refund-and-execute: a nested user's
+// limit order sits in the nested chain's locked batch; the root chain includes no certificate-results transaction for
+// lib.LivenessFallbackBlocks nested blocks; the nested chain orders the liveness fallback - in a certificate that still
+// carries the locked batch as DexBatch - and refunds the order with its next block. The root chain is only late: it now
+// includes that very certificate-results transaction and executes the batch. The seller holds the refund on the nested
+// chain AND the proceeds on the root chain.
+func TestC20Reg_LivenessFallbackRefundsWhatRootExecutes(t *testing.T) {
+	old := lib.LivenessFallbackBlocks
+	lib.LivenessFallbackBlocks = 10
+	defer func() { lib.LivenessFallbackBlocks = old }()
+	tc := newDexPair(t, 1_000_000, 1_000_000, 1)
+	defer tc.Close()
+	seller := chainsim.Addr(dexUser(3))
+	bal := func(c *chainsim.Chain) uint64 { rs, _ := c.Raw(); return rs.Account(seller) }
+	nStart, rStart := bal(tc.Nested), bal(tc.Root)
+	var last *chainsim.NestedOutcome
+	step := func(nestedTxs [][]byte, deliver bool) {
+		no, err := tc.NestedBlock(nestedTxs, 0, nil)
+		if err != nil || no.Err != nil {
+			t.Fatalf("nested block: %v %v", err, no.Err)
+		}
+		last = no
+		var txs [][]byte
+		if deliver && no.CertTx != nil {
+			txs = append(txs, no.CertTx)
+		}
+		if out, err := tc.RootBlock(chainsim.BlockSpec{Txs: txs}); err != nil || out.Err != nil || len(out.Results.Failed) != 0 {
+			t.Fatalf("root block: %v %v %v", err, out.Err, out.Results.Failed)
+		}
+	}
+	for i := 0; i < 3; i++ {
+		step(nil, true)
+	}
+	order, _, err := tc.Nested.SignTx(dexUser(3), &fsm.MessageDexLimitOrder{ChainId: dexRoot, AmountForSale: 10_000, RequestedAmount: 1, Address: seller}, 0, tc.Nested.Height(), "")
+	if err != nil {
+		t.Fatal(err)
+	}
+	step([][]byte{order}, false) // the order is locked into the nested chain's batch (same-block inclusion); the root goes silent
+	if got := bal(tc.Nested); got != nStart-10_000 {
+		t.Fatalf("setup: order not escrowed (%d -> %d)", nStart, got)
+	}
+	var ordering []byte
+	for i := uint64(0); i < lib.LivenessFallbackBlocks+2*lib.TriggerModuloBlocks && ordering == nil; i++ {
+		step(nil, false)
+		if last.Liveness {
+			ordering = last.CertTx // this certificate orders the fallback and still carries the doomed batch
+		}
+	}
+	if ordering == nil {
+		t.Fatalf("setup: the liveness fallback was never ordered")
+	}
+	step(nil, false) // the nested chain executes the fallback: refund
+	refunded := bal(tc.Nested) == nStart
+	// the root chain is back and includes the certificate-results transaction it was sent
+	out, err := tc.RootBlock(chainsim.BlockSpec{Txs: [][]byte{ordering}})
+	if err != nil || out.Err != nil {
+		t.Fatalf("root block: %v %v", err, out.Err)
+	}
+	if len(out.Results.Failed) != 0 {
+		t.Logf("the root rejected the late certificate: %v", out.Results.Failed[0].Error)
+	}
+	paid := bal(tc.Root) - rStart
+	if refunded && paid != 0 {
+		t.Fatalf("the seller of ONE nested order (10000 nested tokens) was refunded in full on the nested chain by the liveness fallback and was paid %d root tokens by the root chain that executed the same batch afterwards", paid)
+	}
+}
+
+// TestC20Reg_LivenessFallbackWipesPoints reproduces finding KF-C20-liveness-points-wiped: the root chain has not yet locked a
+// batch for the nested committee (it never included a certificate-results transaction that carried one) when the nested
+// chain runs the liveness fallback. fsm.GetDexBatch returns before attaching the pool points when there is no stored batch,
+// so the certified RootDexBatch carries an EMPTY points ledger and the fallback "mirrors" it: every liquidity provider loses
+// its points on the nested chain while the root chain keeps them.
+func TestC20Reg_LivenessFallbackWipesPoints(t *testing.T) {
+	old := lib.LivenessFallbackBlocks
+	lib.LivenessFallbackBlocks = 10
+	defer func() { lib.LivenessFallbackBlocks = old }()
+	tc := newDexPair(t, 1_000_000, 1_000_000, 1)
+	defer tc.Close()
+	executed := false
+	for i := uint64(0); i < lib.LivenessFallbackBlocks+3*lib.TriggerModuloBlocks && !executed; i++ {
+		no, err := tc.NestedBlock(nil, 0, nil)
+		if err != nil || no.Err != nil {
+			t.Fatalf("nested block: %v %v", err, no.Err)
+		}
+		if out, err := tc.RootBlock(chainsim.BlockSpec{}); err != nil || out.Err != nil { // the root never includes a certificate
+			t.Fatalf("root block: %v %v", err, out.Err)
+		}
+		if no.Liveness {
+			if no, err = tc.NestedBlock(nil, 0, nil); err != nil || no.Err != nil {
+				t.Fatalf("nested block: %v %v", err, no.Err)
+			}
+			executed = true
+		}
+	}
+	if !executed {
+		t.Fatalf("setup: the liveness fallback was never ordered")
+	}
+	rr, _ := tc.Root.Raw()
+	nr, _ := tc.Nested.Raw()
+	rp, np := rr.Pools[dexNested+fsm.LiquidityPoolAddend], nr.Pools[dexRoot+fsm.LiquidityPoolAddend]
+	if len(np.Points) != len(rp.Points) || np.TotalPoolPoints != rp.TotalPoolPoints {
+		t.Fatalf("after the liveness fallback the nested chain's liquidity pool has %d providers / %d total points, the root chain's %d providers / %d total points", len(np.Points), np.TotalPoolPoints, len(rp.Points), rp.TotalPoolPoints)
 	}
 }
